@@ -8,13 +8,12 @@ Open Scope Z_scope.
 
 (* C05 reasons (found by the proof of Properties/C05.v; each class has a checked counterexample
    in Refuted/C05.v):
-   1 = what is left of F-ID-SUBMS: an insert_one that SUCCEEDS with an explicit _id containing a
-       datetime that patch_datetime_awareness changes (sub-millisecond precision, or aware):
-       the library now keys the store by the normalised _id and returns it, so inserted_id is
-       not the _id as given, which the predicate asks for.  (The other half of the former bit -
-       a store key not stable under patch, two ids equal after truncation coexisting - was
-       repaired in the library; "every store key is stable under patch" is now proved as a
-       state invariant and no longer assumed.)
+   (Bit 1 - F-ID-SUBMS - is gone entirely.  Its first half - a store key not stable under patch,
+       two ids equal after truncation coexisting - was repaired in the library; "every store
+       key is stable under patch" is proved as a state invariant.  Its second half - an
+       insert_one that SUCCEEDS with an explicit _id that patch_datetime_awareness changes
+       reports the normalised _id - is what the predicate now asks for: c05_step compares
+       inserted_id with patch i.)
    2 = an _id that is not a well-formed value (a sub-document with a repeated field name:
        not a Python dict; model artefact, == is not reflexive on it)
    4 = F-ID-RETYPE: a stored document whose _id is == (Python) to the id it is stored under
@@ -45,8 +44,7 @@ Definition c05_reasons (ops : list op) (os : list obs) : Z :=
           (match o with
            | OInsertOne (VDoc fs) =>
                match assoc "_id" fs with
-               | Some i => Z.lor (if is_ok r && negb (value_eqb (patch i) i) then 1 else 0)
-                                 (wf_reason i)
+               | Some i => wf_reason i
                | None => 0
                end
            | OFind (VDoc [("_id", v)]) None [] 0 0 =>
